@@ -267,3 +267,5 @@ def run(ctx):
     from rules.c09 import recursion_shape
     recursion_shape(ctx, crate, RECUR)
     ctx.not_decided("tightness; the point-in-polygon predicate vs. the geometric definition; termination of the descent; that 4 vertices + centre inside implies the whole cell inside (convexity argument)")
+    from rules import cancellation
+    cancellation.check(ctx, ctx.crate("rel"), ['nested::polygon_coverage', 'nested::Layer::polygon_coverage', 'sph_geom::Polygon::contains'], floor=80)
